@@ -222,9 +222,9 @@ def run_case(doc: dict) -> dict:
     last_plan = None
     for pi, plan in enumerate(plans):
         last_plan = plan
-        kinds = ["plain", "noargs", "typeerror_kw", "keyerror", "valueerror", "falsy"]
+        kinds = ["plain", "noargs", "typeerror_kw", "keyerror", "valueerror", "falsy", "badstr"]
         faults = [
-            {"kind": "raise", "node": n, "inv": i, "when": "before" if ((pi + fi) % 2 == 0 or (n, i) in gate_points) else "after", "fid": fi, "exc": kinds[(pi + fi + doc["pair_seed"]) % 6]}
+            {"kind": "raise", "node": n, "inv": i, "when": "before" if ((pi + fi) % 2 == 0 or (n, i) in gate_points) else "after", "fid": fi, "exc": kinds[(pi + fi + doc["pair_seed"]) % len(kinds)]}
             for fi, (n, i) in enumerate(plan)
         ]
         fids = list(range(len(plan)))
